@@ -64,6 +64,7 @@ type World struct {
 	keyReg map[string][3]int
 	sidTs  map[int]uint64
 	simulating bool
+	sidDoc     map[[2]int]string // (sid identity, key version) -> document id computed by the didupdate that introduced it
 }
 
 // RegKey registers the model alias key string of (owner, alias, group) so that the dump can
